@@ -401,9 +401,9 @@ def independent(repo: "BaseRepo", commit_ids: Sequence[ObjectID]) -> list[Object
     Returns:
       list of commit ids that are not ancestors of any other commits in the list
     """
-    if not commit_ids:
-        return []
-    if len(commit_ids) == 1:
+    # The same commit named twice must not eliminate itself
+    commit_ids = list(dict.fromkeys(commit_ids))
+    if len(commit_ids) <= 1:
         return list(commit_ids)
 
     # Filter out commits that are ancestors of other commits
